@@ -66,6 +66,18 @@ def run(chk: core.Check, tier: str, seed: int) -> None:
         ed = core.enc_value(d)
         for t in conf_tails:
             recs.append(impl.rec_find(jp, "$" + t, d, paths=True, edoc=ed))
+    # the configured limits are about HOW DEEP the data may be, never about what is selected: environments with raised, lowered and
+    # late-changed max_recursion_depth (and other integer ranges) give the same nodelists on data within them
+    from .. import probes  # noqa: PLC0415
+    lim_docs = [[[1], [2], [3, [4]]], {"a": [{"b": 1}, {"b": [2]}, [3, [4, {"a": 5}]]], "b": {"a": [[6], [7]]}}, [{"a": [0, [1]]}, [[2]], 3]]
+    late = probes.make_env(jp, [], [])
+    late.max_recursion_depth = 700
+    for lenv in (probes.make_env(jp, [], [], max_depth=201), probes.make_env(jp, [], [], max_depth=5000), probes.make_env(jp, [], [], max_depth=6),
+                 probes.make_env(jp, [], [], lo=-3, hi=3), probes.make_env(jp, [], [], lo=-(2 ** 70), hi=2 ** 70), late):
+        for d in lim_docs:
+            ed = core.enc_value(d)
+            for t in ("..*", "..[0]", "..a", "..[*]", "..[-1]", "..[1:]", "[*]..[0]", "..[0, 1]", "..['a', 0]", "..[*, 'a']", ".a..b", "..[::-1]"):
+                recs.append(impl.rec_find(jp, "$" + t, d, env=lenv, paths=True, edoc=ed))
     n_fixed = len(recs)
     # (2) seeded random queries over deeper documents, plain and nasty names
     n_rand = 6000 if tier == "quick" else 120000
